@@ -477,8 +477,17 @@ def conc_seq_view(items, ekind=None, tag='list'):
     items = list(items)
     n = len(items)
 
+    dflt = []
+
     def get(i):
         i = simp(i)
+        if is_conc_int(i) and 0 <= i < n:
+            return items[i]
+        if not n:
+            # no elements: any index is out of range; an unconstrained value of the element kind
+            if not dflt:
+                dflt.append(fresh(ekind, uid('nil')) if ekind is not None else 0)
+            return dflt[0]
         if is_conc_int(i):
             return items[i]
         r = items[-1] if n else 0
